@@ -337,10 +337,14 @@ def harness(E, cfg):
         elif ep in ("hals_nnls", "fista", "active_set"):
             from tensorly.solvers.nnls import hals_nnls, fista, active_set_nnls
 
+            # tensors handed to the solvers are SArr in symbolic mode (a plain object ndarray cannot be indexed by a mask of
+            # symbolic conditions: active_set_nnls' bare `except:` would swallow that IndexError and restart from zeros,
+            # hiding the warm-start path from the check)
+            T = (lambda a: sym.sarr(np.array(a))) if E.symbolic else np.array
             U = np.array(E.real("U", (3, 2)))
             M = np.array(E.real("M", (3, 2) if ep != "active_set" else (3,)))
-            UtU = snap.arr("UtU", np.dot(U.T, U))
-            UtM = snap.arr("UtM", np.dot(U.T, M))
+            UtU = snap.arr("UtU", T(np.dot(U.T, U)))
+            UtM = snap.arr("UtM", T(np.dot(U.T, M)))
             if ep == "hals_nnls":
                 V = np.array(E.real("V", (2, 2), nn=True))  # documented as updated in place: not snapshotted
                 hals_nnls(UtM, UtU, V, n_iter_max=1)
@@ -350,7 +354,7 @@ def harness(E, cfg):
             else:
                 if E.symbolic:
                     backend.configure(solve="exact" if opt != "warm_backtrack" else "havoc")
-                x0 = snap.arr("x0", np.array(E.real("x0", (2,), pos=(opt == "warm_backtrack"), nn=True)))
+                x0 = snap.arr("x0", T(E.real("x0", (2,), pos=(opt == "warm_backtrack"), nn=True)))
                 active_set_nnls(UtM, UtU, x0, n_iter_max=1 if opt == "warm_backtrack" else 2)
         elif ep == "rank_lists":
             from tensorly.decomposition import tensor_train, tensor_ring, tucker
